@@ -272,3 +272,10 @@ _R16 = {
 for _k, (_t, _l) in _R16.items():
     _a, _b, _c = CLAIMED[_k]
     CLAIMED[_k] = (_a + _t, _b + _l, _c)
+
+_R17 = {
+ "C10": ("; comparisons of half-open spans (HO)", ""),
+}
+for _k, (_t, _l) in _R17.items():
+    _a, _b, _c = CLAIMED[_k]
+    CLAIMED[_k] = (_a + _t, _b + _l, _c)
